@@ -265,6 +265,9 @@ func gen(out *vc.Out, r *vc.Rand, thorough bool) {
 						lim = 3000
 					}
 					explore(out, k, 0, "", lim, "kv-triples")
+					if thorough {
+						explore(out, k, 1, "p", lim, "kv-triples-pfault")
+					}
 				}
 			}
 		}
@@ -298,13 +301,16 @@ func gen(out *vc.Out, r *vc.Rand, thorough bool) {
 				lim = 4000
 			}
 			explore(out, k, 0, "", lim, "list-triples")
+			if thorough {
+				explore(out, k, 1, "p", lim, "list-triples-pfault")
+			}
 		}
 	}
 
 	// D. random histories: 3-4 calls, random schedule, failures of the persistent tier
 	nRand := 300
 	if thorough {
-		nRand = 6000
+		nRand = 20000
 	}
 	for i := 0; i < nRand; i++ {
 		key := vc.Pick(r, catKeys)
